@@ -37,10 +37,19 @@ def placements(E, deep=False, all_aggs=False):
     if is_ms(t): return out
     one = [('p', 'Person')]
     if deep:
-        out.append(('projT', Query(one, (PID, E)), ('str', 'gen')))
+        if not any(n.op in ('and', 'or') and any(c.t != COND for c in n.a) for n in qx.walk(E)):
+            out.append(('projT', Query(one, (PID, E)), ('str', 'gen')))
         if t in FILTERABLE: out.append(('filter', Query(one, P, [E]), ('str', 'lam')))
         return out
     ext = qx.is_external(E)
+    # `a and b` / `a or b` over plain values yields an operand in Python but a truth value in SQL: such
+    # expressions are judged in truth-test positions only (filter, subquery filter)
+    truth_only = any(n.op in ('and', 'or') and any(c.t != COND for c in n.a) for n in qx.walk(E))
+    if truth_only:
+        out.append(('filter', Query(one, P, [E]), ('str', 'gen', 'lam')))
+        sub1 = X('gen', ms(INT), (PID, PERSON, E), 'p')
+        out.append(('subq', Query([('o', 'Person')], var('o', 'Person'), [call('in_ms', COND, attr(var('o', 'Person'), 'id'), sub1)]), ('str', 'gen')))
+        return out
     out.append(('projT', Query(one, (PID, E)), ('str', 'gen')))
     if not ext: out.append(('proj1', Query(one, E), ('str',)))
     if t in FILTERABLE: out.append(('filter', Query(one, P, [E]), ('str', 'gen', 'lam')))
@@ -135,10 +144,10 @@ def blame(st, E, rid):
 def classes(st, E, rid):
     o = st['pids'].get(rid)
     if o is None: return '?'
-    return qx.leaf_classes(st['ev'], E, qx.Env({'p': o}))
+    return qx.operand_classes(st['ev'], E, qx.Env({'p': o}))
 
 def expr_sig(st, M, rid):
-    return '%s [%s]' % (skeleton(M), classes(st, M, rid))
+    return '%s [%s]' % (qx.op_skeleton(M), classes(st, M, rid))
 
 def still_fails(st, pos, E, fe, kind, template):
     """does the query built from template with E' in place of E still disagree (same kind)?"""
@@ -164,6 +173,16 @@ def attribute(sub, st, pos, q, fe, E, mm, template):
     """turn the mismatches of one failing query into signatures"""
     case = dict(query=q.to_json(), frontend=fe, position=pos, expr=qx.to_json(E), source=q.source(fe))
     sigs = {}
+    if pos == 'subq' and E.t in FILTERABLE:
+        # E sits in the filter of a nested generator: if it already fails as the filter of a plain
+        # query (same front end), that is the shape to report
+        fq = Query([('p', 'Person')], P, [E])
+        try:
+            fgot = run_query(st, fq, fe)
+            fexp = fq.expected(st['data'])
+            fmm = [] if fexp.undecided else compare(fexp, fgot)
+        except Exception: fmm = []
+        if fmm: return attribute(sub, st, 'filter', fq, fe, E, fmm, make_template('filter', fq, E))
     rows = [(m, row_id(m)) for m in mm]
     perrow = pos in ('projT', 'filter', 'order') or (pos == 'subq' and q.fors[0][0] == 'o')
     todo = []
@@ -188,15 +207,18 @@ def attribute(sub, st, pos, q, fe, E, mm, template):
         m, rid = todo[0]
         kinds = sorted(set(m.kind for m, _ in todo))
         if fe != 'str':
-            try:
-                ok_str = not compare(q.expected(st['data']), run_query(st, q, 'str'), q.order)
-            except Exception: ok_str = False
+            # same query through the string front end: agreeing or refusing there makes it a front-end defect
+            try: ok_str = not compare(q.expected(st['data']), run_query(st, q, 'str'), q.order)
+            except Exception: ok_str = True
         else: ok_str = False
         M = shrink_in_position(st, pos, E, fe, kinds[0], template) if template else E
-        sig = '%s%s: %s: %s' % (('frontend %s only: ' % fe) if ok_str else '', pos, '+'.join(kinds), skeleton(M))
-        if perrow and rid is not None and len(todo) <= 64:
-            cl = sorted(set(classes(st, M, r_) for _, r_ in todo if r_ is not None))
-            sig += ' [%s]' % ' | '.join(cl[:4])
+        if ok_str:
+            sig = 'frontend %s only: %s: %s' % ('gen/lam' if fe in ('gen', 'lam') else fe, 'filter' if pos in ('filter', 'subq') else 'projection', qx.kind_skeleton(M))
+        else:
+            sig = '%s: %s: %s' % (pos, '+'.join(kinds), qx.op_skeleton(M))
+            if perrow and rid is not None:
+                cl = sorted(set(classes(st, M, r_) for _, r_ in todo if r_ is not None))
+                if len(cl) <= 3: sig += ' [%s]' % ' | '.join(cl)
         sigs[sig] = (m, rid)
     for sig, (m, rid) in sorted(sigs.items()):
         c = dict(case, mismatch=repr(m), row=rid)
